@@ -24,6 +24,10 @@ fn vx_leaf_failure_rate(failure_count: usize, total_count: usize) -> (r: f64) en
 #[verifier::external_body]
 fn vx_leaf_slow_call_rate(slow_call_count: usize, total_count: usize) -> (r: f64) ensures r == ratio(slow_call_count as int, total_count as int) { unimplemented!() }
 #[verifier::external_body]
+fn vx_leafm_failure_rate(total_calls: usize, failure_count: usize) -> (r: f64) { unimplemented!() }
+#[verifier::external_body]
+fn vx_leafm_slow_call_rate(total_calls: usize, slow_call_count: usize) -> (r: f64) { unimplemented!() }
+#[verifier::external_body]
 fn vx_f64_ge(a: f64, b: f64) -> (r: bool) ensures r == f64_ge(a, b) { a >= b }
 
 // ---- ghost history (count-based window) and half-open trial counter ----
@@ -127,13 +131,53 @@ pub open spec fn should_open<C>(config: &CircuitBreakerConfig<C>, total: int, fa
          || (config.slow_call_duration_threshold is Some && f64_ge(ratio(slow, total), config.slow_call_rate_threshold)))
 }
 /// time-based evaluation at clock reading t: evict what expired, then decide on what is left
-pub open spec fn tb_eval<C>(pre: Circuit, post: Circuit, config: &CircuitBreakerConfig<C>, recs: Seq<CallRecord>) -> bool {
-    if should_open(config, recs.len() as int, rfail(recs) as int, rslow(recs) as int) && pre.state != CircuitState::Open {
+pub open spec fn tb_eval<C>(pre_state: CircuitState, pre_lsc: Instant, post: Circuit, config: &CircuitBreakerConfig<C>, recs: Seq<CallRecord>) -> bool {
+    if should_open(config, recs.len() as int, rfail(recs) as int, rslow(recs) as int) && pre_state != CircuitState::Open {
         post.state == CircuitState::Open && post.window_empty()
     } else {
-        post.state == pre.state && post.call_records@ == recs && post.last_state_change == pre.last_state_change
+        post.state == pre_state && post.call_records@ == recs && post.last_state_change == pre_lsc
     }
 }
+/// r2 is what the time-based window holds right after recording one call: expired prefix evicted at
+/// some clock reading t1, then the new record stamped no earlier than t1
+pub open spec fn pushed(old_recs: Seq<CallRecord>, r2: Seq<CallRecord>, fail: bool, slow: bool, lo: nat, hi: nat, w: nat) -> bool {
+    &&& r2.len() > 0 && r2.last().is_failure == fail && r2.last().is_slow == slow && lo <= r2.last().timestamp.t <= hi
+    &&& exists|t1: nat| lo <= t1 <= r2.last().timestamp.t && r2.drop_last() == #[trigger] live(old_recs, t1, w)
+}
+/// documented machine, count-based window: one recorded outcome
+pub open spec fn cb_record<C>(pre: Circuit, pre_gh: Gh, post: Circuit, post_gh: Gh, config: &CircuitBreakerConfig<C>, fail: bool, slow: bool) -> bool {
+    let h2 = pre_gh.hist.push(Outcome { fail, slow });
+    if pre.state == CircuitState::HalfOpen {
+        if fail { post.state == CircuitState::Open && post.window_empty() && post_gh == Gh::empty() }
+        else if pre.success_count + 1 >= config.permitted_calls_in_half_open { post.state == CircuitState::Closed && post.window_empty() && post_gh == Gh::empty() }
+        else { post.state == CircuitState::HalfOpen && post_gh.hist == h2 && post_gh.trials == pre_gh.trials && post.last_state_change == pre.last_state_change }
+    } else {
+        if should_open(config, h2.len() as int, nfail(h2) as int, nslow(h2) as int) && pre.state != CircuitState::Open {
+            post.state == CircuitState::Open && post.window_empty() && post_gh == Gh::empty()
+        } else {
+            post.state == pre.state && post_gh.hist == h2 && post_gh.trials == pre_gh.trials && post.last_state_change == pre.last_state_change
+        }
+    }
+}
+/// documented machine, time-based window: one recorded outcome between clock readings lo and hi
+pub open spec fn tb_record<C>(pre: Circuit, post: Circuit, config: &CircuitBreakerConfig<C>, fail: bool, slow: bool, lo: nat, hi: nat) -> bool {
+    let w = config.sliding_window_duration->0.nanos as nat;
+    if pre.state == CircuitState::HalfOpen {
+        if fail { post.state == CircuitState::Open && post.window_empty() }
+        else {
+            exists|r2: Seq<CallRecord>| pushed(pre.call_records@, r2, fail, slow, lo, hi, w) && (
+                if r2.len() - #[trigger] rfail(r2) >= config.permitted_calls_in_half_open { post.state == CircuitState::Closed && post.window_empty() }
+                else { post.state == CircuitState::HalfOpen && post.call_records@ == r2 && post.last_state_change == pre.last_state_change })
+        }
+    } else {
+        exists|r2: Seq<CallRecord>, t: nat| #![trigger live(r2, t, w)] pushed(pre.call_records@, r2, fail, slow, lo, hi, w) && lo <= t <= hi
+            && tb_eval(pre.state, pre.last_state_change, post, config, live(r2, t, w))
+    }
+}
+pub broadcast proof fn lemma_push_drop_last(s: Seq<CallRecord>, x: CallRecord)
+    ensures #[trigger] s.push(x).drop_last() == s
+{ assert(s.push(x).drop_last() =~= s); }
+
 impl<C> CircuitBreakerConfig<C> {
     pub open spec fn wf(&self) -> bool {
         self.sliding_window_type == SlidingWindowType::TimeBased ==> self.sliding_window_duration is Some
@@ -151,10 +195,15 @@ impl CircuitState {
 }
 
 impl Circuit {
-    /// representation invariant
+    /// representation invariant, in three independently reported parts
     pub open spec fn wf<C>(&self, gh: Gh, config: &CircuitBreakerConfig<C>, clk: Clock) -> bool {
-        &&& self.state_atomic.v == self.state as u8
-        &&& self.last_state_change.t <= clk.now@
+        self.wf_mirror() && self.wf_clock(clk) && self.wf_window(gh, config, clk)
+    }
+    /// the lock-free state view agrees with the state
+    pub open spec fn wf_mirror(&self) -> bool { self.state_atomic.v == self.state as u8 }
+    pub open spec fn wf_clock(&self, clk: Clock) -> bool { self.last_state_change.t <= clk.now@ }
+    /// the counters are the counts of the recorded history since the last transition
+    pub open spec fn wf_window<C>(&self, gh: Gh, config: &CircuitBreakerConfig<C>, clk: Clock) -> bool {
         &&& self.total_count < usize::MAX
         &&& (config.sliding_window_type == SlidingWindowType::CountBased ==> {
                 &&& self.total_count == gh.hist.len()
@@ -187,10 +236,20 @@ impl Circuit {
         ensures r == self.state,   // #state_view [C04]
     //@body Circuit::state
 
+    pub fn metrics<C>(&self, config: &CircuitBreakerConfig<C>, clk: &mut Clock) -> (r: CircuitMetrics)
+        ensures
+            r.state == self.state,   // #snapshot_state_agrees [C04]
+            r.total_calls == self.wtotal(config) && r.failure_count == self.wfail(config) && r.slow_call_count == self.wslow(config),   // #snapshot_counts_agree [C04]
+            config.sliding_window_type == SlidingWindowType::CountBased ==> r.success_count == self.success_count,   // #snapshot_success_agrees [C04]
+            config.sliding_window_type == SlidingWindowType::TimeBased ==> r.success_count == self.call_records@.len() - rfail(self.call_records@),   // #snapshot_success_agrees_tb [C04]
+    //@body Circuit::metrics
+
     fn transition_to<C>(&mut self, state: CircuitState, config: &CircuitBreakerConfig<C>, clk: &mut Clock, Tracked(gh): Tracked<&mut Gh>)
         requires old(self).wf(*old(gh), config, *old(clk)),
         ensures
-            final(self).wf(*final(gh), config, *final(clk)),   // #wf [C03,C04,C09]
+            final(self).wf_mirror(),   // #wf_mirror [C03,C04]
+            final(self).wf_clock(*final(clk)),   // #wf_clock [C03,C04]
+            final(self).wf_window(*final(gh), config, *final(clk)),   // #wf_window [C04]
             old(self).state == state ==> *final(self) == *old(self) && *final(gh) == *old(gh) && *final(clk) == *old(clk),   // #same_state_noop [C04]
             old(self).state != state ==> final(self).state == state && final(self).state_atomic.v == state as u8,   // #sets_state_and_mirror [C03,C04]
             old(self).state != state ==> final(self).window_empty() && *final(gh) == Gh::empty(),   // #clears_window [C04,C09]
@@ -218,7 +277,9 @@ impl Circuit {
     fn evaluate_window<C>(&mut self, config: &CircuitBreakerConfig<C>, clk: &mut Clock, Tracked(gh): Tracked<&mut Gh>)
         requires old(self).wf(*old(gh), config, *old(clk)), config.wf(),
         ensures
-            final(self).wf(*final(gh), config, *final(clk)),   // #wf [C03,C04,C09]
+            final(self).wf_mirror(),   // #wf_mirror [C03,C04]
+            final(self).wf_clock(*final(clk)),   // #wf_clock [C03,C04]
+            final(self).wf_window(*final(gh), config, *final(clk)),   // #wf_window [C04]
             final(clk).now@ >= old(clk).now@,   // #clock_monotone
             // count-based: decide on the counters; open iff the documented condition, otherwise nothing changes
             config.sliding_window_type == SlidingWindowType::CountBased ==> (
@@ -226,17 +287,55 @@ impl Circuit {
                     final(self).state == CircuitState::Open && final(self).window_empty() && *final(gh) == Gh::empty()
                 } else {
                     *final(self) == *old(self) && *final(gh) == *old(gh)
-                }),   // #count_based_trip_iff [C03,C04]
+                }),   // #count_based_trip_iff [C04]
             // time-based: evict what expired at one clock reading t, then decide on what is left
             config.sliding_window_type == SlidingWindowType::TimeBased ==> exists|t: nat| old(clk).now@ <= t <= final(clk).now@
-                && tb_eval(*old(self), *final(self), config, #[trigger] live(old(self).call_records@, t, config.sliding_window_duration->0.nanos as nat)),   // #time_based_trip_iff [C03,C04]
+                && tb_eval(old(self).state, old(self).last_state_change, *final(self), config, #[trigger] live(old(self).call_records@, t, config.sliding_window_duration->0.nanos as nat)),   // #time_based_trip_iff [C04]
             *final(gh) == *old(gh) || *final(gh) == Gh::empty(),
+            old(self).state == CircuitState::Open ==> final(self).state == CircuitState::Open && final(self).last_state_change == old(self).last_state_change,   // #open_stays_open [C03]
     //@body Circuit::evaluate_window
+
+
+    pub fn record_success<C>(&mut self, config: &CircuitBreakerConfig<C>, duration: Duration, clk: &mut Clock, Tracked(gh): Tracked<&mut Gh>)
+        requires old(self).wf(*old(gh), config, *old(clk)), config.wf(),
+            old(self).total_count < usize::MAX - 1,   // domain restriction: counters never reach usize::MAX
+        ensures
+            final(self).wf_mirror(),   // #wf_mirror [C03,C04]
+            final(self).wf_clock(*final(clk)),   // #wf_clock [C03,C04]
+            final(self).wf_window(*final(gh), config, *final(clk)),   // #wf_window [C04]
+            final(clk).now@ >= old(clk).now@,   // #clock_monotone
+            config.sliding_window_type == SlidingWindowType::CountBased ==>
+                cb_record(*old(self), *old(gh), *final(self), *final(gh), config, false, is_slow_spec(config, duration)),   // #count_based_machine [C04]
+            config.sliding_window_type == SlidingWindowType::TimeBased ==>
+                tb_record(*old(self), *final(self), config, false, is_slow_spec(config, duration), old(clk).now@, final(clk).now@),   // #time_based_machine [C04]
+            config.sliding_window_type == SlidingWindowType::CountBased && old(self).total_count <= config.sliding_window_size
+                ==> final(self).total_count <= config.sliding_window_size,   // #window_slides [C04]
+            old(self).state == CircuitState::Open ==> final(self).state == CircuitState::Open && final(self).last_state_change == old(self).last_state_change,   // #open_stays_open [C03]
+    //@body Circuit::record_success
+
+    pub fn record_failure<C>(&mut self, config: &CircuitBreakerConfig<C>, duration: Duration, clk: &mut Clock, Tracked(gh): Tracked<&mut Gh>)
+        requires old(self).wf(*old(gh), config, *old(clk)), config.wf(),
+            old(self).total_count < usize::MAX - 1,   // domain restriction: counters never reach usize::MAX
+        ensures
+            final(self).wf_mirror(),   // #wf_mirror [C03,C04]
+            final(self).wf_clock(*final(clk)),   // #wf_clock [C03,C04]
+            final(self).wf_window(*final(gh), config, *final(clk)),   // #wf_window [C04]
+            final(clk).now@ >= old(clk).now@,   // #clock_monotone
+            config.sliding_window_type == SlidingWindowType::CountBased ==>
+                cb_record(*old(self), *old(gh), *final(self), *final(gh), config, true, is_slow_spec(config, duration)),   // #count_based_machine [C04]
+            config.sliding_window_type == SlidingWindowType::TimeBased ==>
+                tb_record(*old(self), *final(self), config, true, is_slow_spec(config, duration), old(clk).now@, final(clk).now@),   // #time_based_machine [C04]
+            config.sliding_window_type == SlidingWindowType::CountBased && old(self).total_count <= config.sliding_window_size
+                ==> final(self).total_count <= config.sliding_window_size,   // #window_slides [C04]
+            old(self).state == CircuitState::Open ==> final(self).state == CircuitState::Open && final(self).last_state_change == old(self).last_state_change,   // #open_stays_open [C03]
+    //@body Circuit::record_failure
 
     pub fn try_acquire<C>(&mut self, config: &CircuitBreakerConfig<C>, clk: &mut Clock, Tracked(gh): Tracked<&mut Gh>) -> (r: bool)
         requires old(self).wf(*old(gh), config, *old(clk)),
         ensures
-            final(self).wf(*final(gh), config, *final(clk)),   // #wf [C03,C04,C09]
+            final(self).wf_mirror(),   // #wf_mirror [C03,C04]
+            final(self).wf_clock(*final(clk)),   // #wf_clock [C03,C04]
+            final(self).wf_window(*final(gh), config, *final(clk)),   // #wf_window [C04]
             old(self).state == CircuitState::Closed ==> r && *final(self) == *old(self) && *final(gh) == *old(gh),   // #closed_admits [C04]
             old(self).state == CircuitState::Open && !r ==> *final(self) == *old(self) && *final(gh) == *old(gh)
                 && final(clk).now@ - old(self).last_state_change.t < config.wait_duration_in_open.nanos,   // #open_rejects_until_wait [C03,C04]
@@ -252,7 +351,9 @@ impl Circuit {
     pub fn force_open<C>(&mut self, config: &CircuitBreakerConfig<C>, clk: &mut Clock, Tracked(gh): Tracked<&mut Gh>)
         requires old(self).wf(*old(gh), config, *old(clk)),
         ensures
-            final(self).wf(*final(gh), config, *final(clk)),   // #wf [C03,C04]
+            final(self).wf_mirror(),   // #wf_mirror [C03,C04]
+            final(self).wf_clock(*final(clk)),   // #wf_clock [C03,C04]
+            final(self).wf_window(*final(gh), config, *final(clk)),   // #wf_window [C04]
             final(self).state == CircuitState::Open,   // #opens [C03,C04]
             old(self).state != CircuitState::Open ==> final(self).window_empty() && final(self).last_state_change.t == final(clk).now@,   // #fresh_open [C03,C04]
     //@body Circuit::force_open
@@ -260,14 +361,18 @@ impl Circuit {
     pub fn force_closed<C>(&mut self, config: &CircuitBreakerConfig<C>, clk: &mut Clock, Tracked(gh): Tracked<&mut Gh>)
         requires old(self).wf(*old(gh), config, *old(clk)),
         ensures
-            final(self).wf(*final(gh), config, *final(clk)),   // #wf [C04]
+            final(self).wf_mirror(),   // #wf_mirror [C03,C04]
+            final(self).wf_clock(*final(clk)),   // #wf_clock [C03,C04]
+            final(self).wf_window(*final(gh), config, *final(clk)),   // #wf_window [C04]
             final(self).state == CircuitState::Closed,   // #closes [C04]
     //@body Circuit::force_closed
 
     pub fn reset<C>(&mut self, config: &CircuitBreakerConfig<C>, clk: &mut Clock, Tracked(gh): Tracked<&mut Gh>)
         requires old(self).wf(*old(gh), config, *old(clk)),
         ensures
-            final(self).wf(*final(gh), config, *final(clk)),   // #wf [C04]
+            final(self).wf_mirror(),   // #wf_mirror [C03,C04]
+            final(self).wf_clock(*final(clk)),   // #wf_clock [C03,C04]
+            final(self).wf_window(*final(gh), config, *final(clk)),   // #wf_window [C04]
             final(self).state == CircuitState::Closed,   // #closes [C04]
             final(self).window_empty() && *final(gh) == Gh::empty(),   // #empty_window [C04]
     //@body Circuit::reset
